@@ -340,6 +340,33 @@ func jsDocCheck(c *h.Ctx, bucket string, plain, deco []byte, sizes []int, nontri
 func c17(c *h.Ctx) {
 	r := c.R
 
+	// 00. documents decoded one after the other through the package's Unmarshal: each decode is about ITS document
+	// only — whatever an earlier call left undecoded (a document that stops being valid half-way, a second value
+	// behind the first, long runs the decoder never reached) is gone with that call.
+	{
+		first := [][]byte{
+			[]byte("[1] " + strings.Repeat(" ", 600) + " [7] "),
+			[]byte("[1, 2" + strings.Repeat(" ", 900) + " oops " + strings.Repeat("9", 700) + "]"),
+			[]byte(`{"a":1} ` + strings.Repeat("x", 2000)),
+			[]byte(strings.Repeat("[", 300) + strings.Repeat("1,", 1200)),
+			[]byte(`{"k": /* c */ tru` + strings.Repeat("e", 800) + `}`),
+			[]byte("[" + strings.Repeat("1,", 3000) + "]"),
+		}
+		second := [][]byte{[]byte(`{"code":100}`), []byte(`[7, "x" /* c */, null] // t`), []byte(`"s"`), []byte(` {"a": {"b": [1, 2, 3]}} `)}
+		for i, f := range first {
+			for j, s2 := range second {
+				decodePlus(bytes.NewReader(f)) // whatever it returns
+				got, gerr := decodePlus(bytes.NewReader(s2))
+				plain, _ := ioutil.ReadAll(oj.NewJsonPlusReader(bytes.NewReader(s2)))
+				want, werr := decodeStd(plain)
+				in := fmt.Sprintf("json.Unmarshal(first #%d, %d bytes) then json.Unmarshal(%s)", i, len(f), s2)
+				c.Hold((gerr == nil) == (werr == nil) && fmt.Sprint(got) == fmt.Sprint(want), "strip_decorated.calls_are_independent", in,
+					fmt.Sprint(got, " ", gerr), fmt.Sprint(want, " ", werr))
+				c.Case("sequence/unmarshal-after-unmarshal", fmt.Sprint(i, j), true)
+			}
+		}
+	}
+
 	// 0. regression corpus: F13 (fixed), K4 (fixed), the repository's example document.
 	for _, s := range []string{
 		`{"a":"x\""}`, `{"a":"x\"//y","b":1}`, `["\\\""]`, `{"a":"x\\"}`, `{"k\"":"\\\\\"/*"}`, `"\"" // "`, `{"a":"it's","b":"x'y\"'"}`,
